@@ -3,6 +3,7 @@
 #![allow(unused_imports)]
 use vstd::prelude::*;
 use vstd::std_specs::cmp::PartialEqSpec;
+use vstd::std_specs::iter::IteratorSpec;
 use super::*;
 verus! {
 
@@ -119,13 +120,23 @@ pub assume_specification<'a> [quick_xml::events::BytesCData::<'a>::into_inner] (
     ensures bytes_of(c) == cdata_bytes(t);
 
 
-// ---------- A6: trusted leaf Element::merge_attr (`mut self` receiver is not supported by Verus) ----------
-pub assume_specification<T: std::cmp::PartialEq + std::fmt::Display + std::fmt::Debug> [crate::element::Element::<T>::merge_attr] (e: crate::element::Element<T>, a: Vec<crate::necessity::Necessity<T>>) -> (r: crate::element::Element<T>)
-    requires eq_is_structural::<T>(),
+// ---------- A10: std `Iterator::position` on a slice iterator (vstd has no specification for it) ----------
+// std documentation: "Searches for an element in an iterator, returning its index. ... position() is short-circuiting;
+// it stops processing as soon as it finds a true": the closure was called on the items before the returned index and
+// answered false, on the item at the index and answered true; None = it answered false for every remaining item.
+// `idx_hint(j)` is `true`; it only gives callers a term to instantiate the quantifiers with (the iterator is a temporary
+// that a proof hint cannot name).
+pub open spec fn idx_hint(j: int) -> bool { true }
+pub assume_specification<'a, T, P: FnMut(&'a T) -> bool> [ <core::slice::Iter<'a, T> as Iterator>::position ] (it: &mut core::slice::Iter<'a, T>, p: P) -> (r: Option<usize>)
+    where core::slice::Iter<'a, T>: Sized,
+    requires forall|x: &'a T| p.requires((x,)),
     ensures
-        r.attributes@ == spec_merge(e.attributes@, a@),
-        r.name == e.name, r.text == e.text, r.standalone == e.standalone, r.count == e.count,
-        r.children == e.children, r.position == e.position;
+        match r {
+            Some(i) => i < old(it).remaining().len()
+                && p.ensures((old(it).remaining()[i as int],), true)
+                && forall|j: int| #![trigger old(it).remaining()[j]] #![trigger idx_hint(j)] 0 <= j < i && idx_hint(j) ==> p.ensures((old(it).remaining()[j],), false),
+            None => forall|j: int| #![trigger old(it).remaining()[j]] #![trigger idx_hint(j)] 0 <= j < old(it).remaining().len() && idx_hint(j) ==> p.ensures((old(it).remaining()[j],), false),
+        };
 
 // ---------- A9: Rust's allocation limit ----------
 // A Vec of a non-zero-sized element type holds at most isize::MAX bytes, hence fewer than isize::MAX elements
